@@ -217,6 +217,19 @@ vol c33 c13
 """
 
 
+TABLE_C = """rows listed by increasing volume
+ 950.000000  3  77.700000
+V c11 c12
+ 800.0  410.5  150.25
+ 900.0  350.5  130.25
+1000.0  300.5  110.25
+ lattice_a lattice_b lattice_c
+8.1 8.2 8.3
+9.1 9.2 9.3
+10.1 10.2 10.3
+"""
+
+
 def r_elast(ctx, model):
     patch_lines()
     f = model.func(f"{ED}:read_elast_data")
@@ -225,8 +238,11 @@ def r_elast(ctx, model):
         "a.dat": (1234.5, 2, 100.25, ((1100.0, {"c11": 300.5, "c12": 110.25, "c44": 80.125, "c14": -3.5}), (1000.0, {"c11": 350.5, "c12": 120.25, "c44": 90.125, "c14": -4.5})),
                   ((10.1, 10.2, 10.3), (9.1, 9.2, 9.3))),
         "b.dat": (987.0, 3, 55.5, ((900.0, {"c33": 1.0, "c13": 2.0}), (800.0, {"c33": 3.0, "c13": 4.0}), (700.0, {"c33": 5.0, "c13": 6.0})), ()),
+        # rows in increasing-volume order: row k of the table stays paired with row k of the lattice block
+        "c.dat": (950.0, 3, 77.7, ((800.0, {"c11": 410.5, "c12": 150.25}), (900.0, {"c11": 350.5, "c12": 130.25}), (1000.0, {"c11": 300.5, "c12": 110.25})),
+                  ((8.1, 8.2, 8.3), (9.1, 9.2, 9.3), (10.1, 10.2, 10.3))),
     }
-    for name, text in (("a.dat", TABLE_A), ("b.dat", TABLE_B)):
+    for name, text in (("a.dat", TABLE_A), ("b.dat", TABLE_B), ("c.dat", TABLE_C)):
         intr = io_intrinsics({name: text}, [])
         intr["cij.c_"] = c_intrinsic
         ev = Ev(model, {("global", "cij.util:c_"): LibV("cij.c_")}, intr, ctx=ctx)
@@ -236,7 +252,7 @@ def r_elast(ctx, model):
             ctx.violation(f"elast.{name}", w, "the reference table is parsed", f"raises {e.exc_name} at {e.where}", f"read_elast_data fails on a well-formed table ({e.exc_name})")
             continue
         got = plain(out)
-        ctx.check(close(got, wants[name]), f"read_elast_data on reference table {name} ({'with' if name == 'a.dat' else 'without'} lattice block)", w,
+        ctx.check(close(got, wants[name]), f"read_elast_data on reference table {name} ({'without' if name == 'b.dat' else 'with'} lattice block{', rows by increasing volume' if name == 'c.dat' else ''})", w,
                   expected=str(wants[name])[:300], found=str(got)[:300],
                   explanation="the static table is not parsed into (reference volume, count, cell mass, per-volume components under canonical keys, "
                               "lattice rows): header field order, volume column, key/column pairing or the lattice block", key=f"elast.{name}")
